@@ -97,6 +97,18 @@ tight!(core::ops::RangeInclusive<i16>, 2 * vbits(16));
 tight!(core::ops::RangeFrom<u64>, vbits(64));
 tight!(core::ops::RangeTo<u8>, 1);
 
+// heapless containers: length prefix for the capacity + payload; every bit length of the capacity (2^k - 1 and 2^k)
+macro_rules! hl {
+    ($($n:expr),*) => { $(
+        tight!(heapless::Vec<u8, $n>, vlen($n) + $n);
+        tight!(heapless::String<$n>, vlen($n) + $n);
+    )* };
+}
+hl!(0, 1, 2, 3, 4, 7, 8, 15, 16, 31, 32, 63, 64, 127, 128, 129, 255, 256, 511, 512, 1023, 1024, 2047, 2048, 4095, 4096, 8191, 8192, 16383, 16384, 16385,
+    32767, 32768, 65535, 65536, 131071, 131072, 262143, 262144, 524287, 524288, 1048575, 1048576, 2097151, 2097152, 4194303, 4194304);
+tight!(heapless::Vec<u32, 128>, vlen(128) + 128 * vbits(32));
+tight!(heapless::Vec<(), 300>, vlen(300));
+
 // derive corpus: sum of fields; enums: varint(largest index) + largest variant (upper bound; tight not claimed for derives)
 #[derive(postcard_derive::MaxSize)]
 pub struct MUnit;
